@@ -8,6 +8,9 @@ CONSTANTS
   EmptyListPassThrough = FALSE
   Mode = "copy"
   HashCache = "none"
+  LazyHash = "getter"
+  ObsKinds <- ObsActs
+  EmitLazy = FALSE
   CopyViaCtor = TRUE
   Emit = FALSE
 INVARIANT CopyEqual
